@@ -13,7 +13,9 @@
               [14] update_ecu_list                 [15] delete_obsolete_ecus
               [16; lp gf gs ecu] add_signal_receiver   [17; lp gf gs ecu] del_signal_receiver
    1101: matrix groups, op groups -> for every op, in order: [99] followed by the matrix after that op
-   1102: [pattern] | [name] -> [[glob_match]]          1103: [name] -> [strip name] *)
+         (step_cls: patterns are read with character classes; equal to step on patterns without `[`)
+   1102: [pattern] | [name] -> [[glob_match]]          1103: [name] -> [strip name]
+   1104: [pattern] | [name] -> [[glob_match_cls]]  (fnmatch with character classes) *)
 From CM Require Import lib.Prelude model.RunBase model.Glob model.EcuOps.
 
 Fixpoint lp_names (fuel : nat) (g : list Z) : list name :=
@@ -71,7 +73,7 @@ Definition matrix_out (m : matrix) : io :=
 Fixpoint trace (m : matrix) (ops : list op) : io :=
   match ops with
   | [] => []
-  | o :: r => let m' := step m o in [[99]] ++ matrix_out m' ++ trace m' r
+  | o :: r => let m' := step_cls m o in [[99]] ++ matrix_out m' ++ trace m' r
   end.
 
 Definition run_1101 (a : io) : io := let (m, ops) := parse a in trace m ops.
@@ -83,5 +85,6 @@ Definition run_c11 (cmd : Z) (a : io) : io :=
   | 1101, _ => run_1101 a
   | 1102, [p; s] => run_1102 p s
   | 1103, [n] => run_1103 n
+  | 1104, [p; s] => [[bz (glob_match_cls p s)]]
   | _, _ => [[-999]]
   end.
